@@ -245,6 +245,101 @@ theorem encEntries_ref_eq (f : Fmt) (skips : List Bool) (P Pr : Nat → Cdc π) 
     funext e; simp only [encEntry, h]
   simp only [encEntries, this]
 
+/-! the general form with widths -/
+
+theorem rankW_le (ws : List Nat) (j : Nat) : rankW ws j ≤ (ws.take j).sum := by
+  induction ws generalizing j with
+  | nil => simp [rankW]
+  | cons w t ih =>
+    cases j with
+    | zero => simp [rankW]
+    | succ j => have := ih j; simp only [rankW, List.take_succ_cons, List.sum_cons]; omega
+
+theorem unrankW_rankW (ws : List Nat) (j a w : Nat) (h : ws[j]? = some w) (ha : a < w) :
+    unrankW ws (rankW ws j + a) = some (j, a) := by
+  induction ws generalizing j with
+  | nil => simp at h
+  | cons w0 t ih =>
+    cases j with
+    | zero =>
+      simp only [List.getElem?_cons_zero, Option.some.injEq] at h
+      subst h
+      simp [rankW, unrankW, ha]
+    | succ j =>
+      simp only [List.getElem?_cons_succ] at h
+      have : ¬ (w0 + rankW t j + a < w0) := by omega
+      simp only [rankW, unrankW, this, if_false]
+      rw [show w0 + rankW t j + a - w0 = rankW t j + a by omega, ih j h]
+      rfl
+
+/-- different (field, alternative) pairs never share a discriminant -/
+theorem rankW_inj (ws : List Nat) (i a j b wi wj : Nat) (hi : ws[i]? = some wi) (ha : a < wi) (hj : ws[j]? = some wj) (hb : b < wj)
+    (h : rankW ws i + a = rankW ws j + b) : i = j ∧ a = b := by
+  have h1 := unrankW_rankW ws i a wi hi ha
+  have h2 := unrankW_rankW ws j b wj hj hb
+  rw [h, h2] at h1
+  simpa using h1.symm
+
+theorem rankW_lt (ws : List Nat) (j a w : Nat) (h : ws[j]? = some w) (ha : a < w) : rankW ws j + a < ws.sum := by
+  induction ws generalizing j with
+  | nil => simp at h
+  | cons w0 t ih =>
+    cases j with
+    | zero =>
+      simp only [List.getElem?_cons_zero, Option.some.injEq] at h
+      subst h; simp only [rankW, List.sum_cons]; omega
+    | succ j =>
+      simp only [List.getElem?_cons_succ] at h
+      have := ih j h
+      simp only [rankW, List.sum_cons]; omega
+
+/-- a discriminant no generated variant has is not accepted: `unrankW` fails exactly from the number of variants on -/
+theorem unrankW_none_iff (ws : List Nat) (t : Nat) : unrankW ws t = none ↔ ws.sum ≤ t := by
+  induction ws generalizing t with
+  | nil => simp [unrankW]
+  | cons w r ih =>
+    simp only [unrankW, List.sum_cons]
+    by_cases h : t < w
+    · simp only [h, if_true]
+      constructor
+      · intro h'; cases h'
+      · intro h'; omega
+    · simp only [h, if_false, Option.map_eq_none_iff, ih]
+      omega
+
+variable {π : Type}
+
+/-- an entry whose discriminant is not that of any generated variant is rejected, whatever follows -/
+theorem decEntryW_bad_discriminant (f : Fmt) (ws : List Nat) (P : Nat → Nat → Cdc π) (t : Nat) (rest : Bytes)
+    (h1 : ws.sum ≤ t) (h2 : t < 2 ^ 16) : decEntryW f ws P (encDTag f t ++ rest) = none := by
+  simp only [decEntryW, decDTag_enc f t rest h2, (unrankW_none_iff ws t).mpr h1]
+
+/-- an entry is well-formed: its alternative exists for its field and its payload satisfies that alternative's law -/
+def WFEntryW (ws : List Nat) (wf : Nat → Nat → π → Prop) (e : (Nat × Nat) × π) : Prop :=
+  (∃ w, ws[e.1.1]? = some w ∧ e.1.2 < w) ∧ wf e.1.1 e.1.2 e.2
+
+theorem decEntryW_enc (f : Fmt) (ws : List Nat) (hs : ws.sum < 2 ^ 16) (P : Nat → Nat → Cdc π) (wf : Nat → Nat → π → Prop)
+    (hP : ∀ j a, (P j a).Law (wf j a)) (e : (Nat × Nat) × π) (rest : Bytes) (he : WFEntryW ws wf e) :
+    decEntryW f ws P (encEntryW f ws P e ++ rest) = some (e, rest) := by
+  obtain ⟨⟨j, a⟩, p⟩ := e
+  obtain ⟨⟨w, h1, h2⟩, h3⟩ := he
+  have hr : rankW ws j + a < 2 ^ 16 := Nat.lt_trans (rankW_lt ws j a w h1 h2) hs
+  simp only [encEntryW, List.append_assoc, decEntryW, decDTag_enc f _ _ hr, unrankW_rankW ws j a w h1 h2, hP j a p rest h3, Option.map_some]
+
+/-- decode ∘ encode = id for entry lists over (field, alternative), for ANY payload codecs that are inverse pairs -/
+theorem decEntriesW_enc (f : Fmt) (ws : List Nat) (hs : ws.sum < 2 ^ 16) (P : Nat → Nat → Cdc π) (wf : Nat → Nat → π → Prop)
+    (hP : ∀ j a, (P j a).Law (wf j a)) (es : List ((Nat × Nat) × π)) (hes : ∀ e ∈ es, WFEntryW ws wf e) (hlen : es.length < 2 ^ 64)
+    (rest : Bytes) : decEntriesW f ws P (encEntriesW f ws P es ++ rest) = some (es, rest) :=
+  decList_enc (encEntryW f ws P) (decEntryW f ws P) (WFEntryW ws wf)
+    (fun e r h => decEntryW_enc f ws hs P wf hP e r h) es hes hlen rest
+
+theorem optCdc_law {β : Type} (c : Cdc β) (wf : β → Prop) (h : c.Law wf) :
+    (optCdc c).Law (fun o => ∀ x, o = some x → wf x) := by
+  intro o rest ho
+  cases o with
+  | none => simp [optCdc]
+  | some x => simp [optCdc, h x rest (ho x rfl)]
+
 /-- what a payload must be for a field of the given kind -/
 def WFPV (isOpt : Bool) : PV → Prop
   | .u v => isOpt = false ∧ v < 2 ^ 32
@@ -298,25 +393,67 @@ theorem leafEntriesCdc_law (f : Fmt) (L : LeafTy) (hL : L.skips.length < 2 ^ 16)
   intro es rest h
   exact decEntries_enc f L.skips hL _ _ (fun j => pvCdc_law (L.opts.getD j false)) es h.1 h.2 rest
 
-/-- well-formed payload for a field of the given kind -/
-def WFPL : FKind → PL → Prop
-  | .flat o, .pv p => WFPV o p
-  | .rmap L, .rm d => L.skips.length < 2 ^ 16 ∧ WFRDiff (WFVals L.opts) (WFLeafEntries L) d
-  | _, _ => False
+/-- well-formed payload for alternative `alt` of a field of the given kind -/
+def WFPL : FKind → Nat → PL → Prop
+  | .flat o, _, .pv p => WFPV o p
+  | .nested L, _, .ne es => L.skips.length < 2 ^ 16 ∧ WFLeafEntries L es
+  | .optNested L, 0, .on o => L.skips.length < 2 ^ 16 ∧ ∀ es, o = some es → WFLeafEntries L es
+  | .optNested L, _ + 1, .full vs => WFVals L.opts vs
+  | .ord, _, .sc s => (∀ c ∈ s, WFChange c) ∧ s.length < 2 ^ 64
+  | .uarr, _, .ua d => WFUDiff d
+  | .umap, _, .um d => WFMDiff d
+  | .rmap L, _, .rm d => L.skips.length < 2 ^ 16 ∧ WFRDiff (WFVals L.opts) (WFLeafEntries L) d
+  | _, _, _ => False
 
-theorem plCdc_law (f : Fmt) (hC : TabOK (tablesRMapChange f) 3) (hDt : TabOK (tablesRMapDiff f) 2) (k : FKind) :
-    (plCdc f k).Law (WFPL k) := by
+/-- every extracted discriminant table of the hand-written codecs is inverted by its decode table -/
+structure AllTabs (f : Fmt) : Prop where
+  script : TablesOK f
+  uchange : TabOK (tablesUArrChange f) 6
+  udiff : TabOK (tablesUArrDiff f) 2
+  mchange : TabOK (tablesUMapChange f) 4
+  mdiff : TabOK (tablesUMapDiff f) 2
+  rchange : TabOK (tablesRMapChange f) 3
+  rdiff : TabOK (tablesRMapDiff f) 2
+
+theorem plCdc_law (f : Fmt) (hT : AllTabs f) (k : FKind) (alt : Nat) : (plCdc f k alt).Law (WFPL k alt) := by
   intro p rest h
   cases k with
   | flat o =>
-    cases p with
-    | pv p => simp only [plCdc, pvCdc_law o p rest h, Option.map_some]
-    | rm d => simp [WFPL] at h
+    cases p <;> try (simp [WFPL] at h; done)
+    rename_i p
+    simp only [plCdc, pvCdc_law o p rest h, Option.map_some]
+  | nested L =>
+    cases p <;> try (simp [WFPL] at h; done)
+    rename_i es
+    obtain ⟨hL, he⟩ := h
+    simp only [plCdc, leafEntriesCdc_law f L hL es rest he, Option.map_some]
+  | optNested L =>
+    cases alt with
+    | zero =>
+      cases p <;> try (simp [WFPL] at h; done)
+      rename_i o
+      obtain ⟨hL, ho⟩ := h
+      simp only [plCdc, optCdc_law _ _ (leafEntriesCdc_law f L hL) o rest ho, Option.map_some]
+    | succ a =>
+      cases p <;> try (simp [WFPL] at h; done)
+      rename_i vs
+      simp only [plCdc, valsCdc_law L.opts vs rest h, Option.map_some]
+  | ord =>
+    cases p <;> try (simp [WFPL] at h; done)
+    rename_i s
+    simp only [plCdc, decScript_enc f hT.script s h.1 h.2 rest, Option.map_some]
+  | uarr =>
+    cases p <;> try (simp [WFPL] at h; done)
+    rename_i d
+    simp only [plCdc, decUDiff_enc f hT.uchange hT.udiff d rest h, Option.map_some]
+  | umap =>
+    cases p <;> try (simp [WFPL] at h; done)
+    rename_i d
+    simp only [plCdc, decMDiff_enc f hT.mchange hT.mdiff d rest h, Option.map_some]
   | rmap L =>
-    cases p with
-    | pv p => simp [WFPL] at h
-    | rm d =>
-      obtain ⟨hL, hd⟩ := h
-      simp only [plCdc, decRDiff_enc f hC hDt _ _ _ _ (valsCdc_law L.opts) (leafEntriesCdc_law f L hL) d rest hd, Option.map_some]
+    cases p <;> try (simp [WFPL] at h; done)
+    rename_i d
+    obtain ⟨hL, hd⟩ := h
+    simp only [plCdc, decRDiff_enc f hT.rchange hT.rdiff _ _ _ _ (valsCdc_law L.opts) (leafEntriesCdc_law f L hL) d rest hd, Option.map_some]
 
 end Codec
